@@ -319,6 +319,10 @@ func (s *Server) blobUploadMount(repoSrcStr, repoTgtStr, digStr string, w http.R
 	if err != nil {
 		return err
 	}
+	// the source comes from a query parameter and has not been validated by the router
+	if !rePath.MatchString(repoSrcStr) {
+		return fmt.Errorf("invalid source repository name: %s", repoSrcStr)
+	}
 	repoTgt, err := s.store.RepoGet(r.Context(), repoTgtStr)
 	if err != nil {
 		return err
